@@ -198,8 +198,7 @@ Conversion<Unit::ReciprocalTemperature, Unit::ReciprocalTemperature::PerFahrenhe
 }
 
 template <typename NumericType>
-inline const std::map<Unit::ReciprocalTemperature,
-                      std::function<void(NumericType* values, const std::size_t size)>>
+inline const ConversionTable<Unit::ReciprocalTemperature, NumericType>
     MapOfConversionsFromStandard<Unit::ReciprocalTemperature, NumericType>{
       {Unit::ReciprocalTemperature::PerKelvin,
        Conversions<Unit::ReciprocalTemperature, Unit::ReciprocalTemperature::PerKelvin>::
@@ -216,8 +215,7 @@ inline const std::map<Unit::ReciprocalTemperature,
 };
 
 template <typename NumericType>
-inline const std::map<Unit::ReciprocalTemperature,
-                      std::function<void(NumericType* const values, const std::size_t size)>>
+inline const ConversionTable<Unit::ReciprocalTemperature, NumericType>
     MapOfConversionsToStandard<Unit::ReciprocalTemperature, NumericType>{
       {Unit::ReciprocalTemperature::PerKelvin,
        Conversions<Unit::ReciprocalTemperature, Unit::ReciprocalTemperature::PerKelvin>::
